@@ -238,10 +238,23 @@ type Sink struct {
 	// (a destination that fails once, e.g. a quota hit that is lifted, EINTR-like errors)
 	Transient bool
 	recovered bool
+	// PerCall > 0: a destination that takes at most PerCall bytes of a write and reports the short count WITHOUT an
+	// error (it breaks the io.Writer contract; the caller still knows from the count that bytes are missing)
+	PerCall    int
+	ShortCalls int
 }
 
 func (s *Sink) Write(p []byte) (int, error) {
 	s.Calls++
+	if s.PerCall > 0 && len(p) > s.PerCall {
+		s.Accepted += int64(s.PerCall)
+		if s.Keep {
+			s.Buf = append(s.Buf, p[:s.PerCall]...)
+		}
+		s.Failed = true
+		s.ShortCalls++
+		return s.PerCall, nil
+	}
 	if s.Limit < 0 || s.recovered {
 		s.Accepted += int64(len(p))
 		if s.Keep {
